@@ -78,23 +78,87 @@ func (d *driver) storm() {
 			}
 		}(entries[g])
 	}
-	submitted := make(chan struct{})
-	go func() { subs.Wait(); close(submitted) }()
-	rounds := 0
-	for done := false; !done && rounds < 400; rounds++ {
-		select {
-		case <-submitted:
-			done = true
-		default:
+	drive := func() int {
+		submitted := make(chan struct{})
+		go func() { subs.Wait(); close(submitted) }()
+		rounds := 0
+		for done := false; !done && rounds < 400; rounds++ {
+			select {
+			case <-submitted:
+				done = true
+			default:
+			}
+			d.releaseTick(li)
+			d.waitQuiet(li)
 		}
-		d.releaseTick(li)
-		d.waitQuiet(li)
+		for k := 0; k < 3; k++ {
+			d.releaseTick(li)
+			d.waitQuiet(li)
+		}
+		waits.Wait()
+		return rounds
 	}
-	for k := 0; k < 3; k++ {
-		d.releaseTick(li)
-		d.waitQuiet(li)
+	rounds := drive()
+	// second phase: the pools now hold LARGE new entries (16-32 KiB: computing their deduplication keys keeps
+	// the sequencer's cachePut busy for milliseconds per round) while the same goroutines resubmit entries
+	// acknowledged in the first phase (answered from the cache) and, later, the large ones again
+	submitList := func(list []*ctlog.PendingLogEntry) {
+		defer subs.Done()
+		for _, e := range list {
+			f, src := li.log.VerifAddLeafToPool(context.Background(), e, false)
+			a := &stormAck{e: e, src: src}
+			mu.Lock()
+			acks = append(acks, a)
+			mu.Unlock()
+			waits.Add(1)
+			go func() {
+				defer waits.Done()
+				defer func() {
+					if r := recover(); r != nil {
+						a.err = fmt.Errorf("PANIC: %v", r)
+					}
+				}()
+				ctx, cancel := context.WithTimeout(context.Background(), 60*time.Second)
+				defer cancel()
+				a.le, a.err = f(ctx)
+			}()
+			time.Sleep(1500 * time.Microsecond)
+		}
 	}
-	waits.Wait()
+	second := make([][]*ctlog.PendingLogEntry, G)
+	for g := range second {
+		for k := 0; k < 60; k++ {
+			if k%3 == 0 {
+				big := make([]byte, 16<<10+d.r.Intn(16<<10))
+				d.r.Read(big)
+				copy(big, fmt.Sprintf("big%02d%04d", g, k))
+				e := &ctlog.PendingLogEntry{Certificate: big}
+				second[g] = append(second[g], e)
+			} else {
+				second[g] = append(second[g], entries[g][d.r.Intn(per)]) // acknowledged in the first phase
+			}
+		}
+	}
+	for g := 0; g < G; g++ {
+		subs.Add(1)
+		go submitList(second[g])
+	}
+	rounds += drive()
+	// third phase: every large entry once more (each was acknowledged in the second phase: the cache must answer
+	// with exactly that index and timestamp; a key stored wrongly by cachePut shows up as a new leaf here)
+	third := make([][]*ctlog.PendingLogEntry, G)
+	for g := range third {
+		for _, e := range second[g] {
+			if len(e.Certificate) >= 16<<10 {
+				third[g] = append(third[g], e)
+			}
+		}
+	}
+	for g := 0; g < G; g++ {
+		subs.Add(1)
+		go submitList(third[g])
+	}
+	rounds += drive()
 	d.stats["storm-rounds"] += rounds
 	w := d.w
 	w.mu.Lock()
